@@ -125,6 +125,35 @@ def watComplete (s : Names) (fixed : Bool) : Names := ((watFinalize 3 s fixed).1
 def cleanup (s : Names) (first second : Str) : Names :=
   if s.contains first && s.contains second then remove s first else s
 
+/-! ### heavy-atom repair and hydrogen addition (biomolecule.py) -/
+
+def isH (n : Str) : Bool := n.head? = some 'H'
+def isPseudo (n : Str) : Bool := n = str "N+1" || n = str "C-1"
+def OP1 : Str := str "OP1"
+def OP2 : Str := str "OP2"
+
+/-- `num_missing_heavy` on one residue: the reference's heavy atoms that are absent, in
+reference order (O1P/O2P count as present when OP1/OP2 are) -/
+def missingHeavy (refNames : List Str) (s : Names) : List Str :=
+  refNames.filter (fun n => !isH n && !isPseudo n && !(n = str "O1P" && s.contains OP1) &&
+    !(n = str "O2P" && s.contains OP2) && !s.contains n)
+
+/-- the atoms `repair_heavy` deletes (and reports: "Extra atom … Deleted this atom") -/
+def isExtra (refNames : List Str) (s : Names) (n : Str) : Bool :=
+  !((n = str "O1P" || n = OP1) && s.contains OP1) && !((n = str "O2P" || n = OP2) && s.contains OP2) &&
+    !refNames.contains n
+
+/-- `repair_heavy` on one residue when every missing atom can be rebuilt: (names afterwards,
+names deleted and reported). The rebuilt atoms are appended (possibly in another order). -/
+def repairHeavy (refNames : List Str) (s : Names) : Names × List Str :=
+  (s.filter (fun n => !isExtra refNames s n) ++ missingHeavy refNames s, s.filter (isExtra refNames s))
+
+/-- `add_hydrogens` on one residue: every hydrogen of the reference that is absent is created,
+unless it is skipped (HG of a bridged cysteine) or cannot be placed (`ok n = false`:
+"Couldn't rebuild") -/
+def addHydrogens (refNames : List Str) (skip ok : Str → Bool) (s : Names) : Names :=
+  refNames.foldl (fun acc n => if isH n && !acc.contains n && !skip n && ok n then create acc n else acc) s
+
 /-! ### operation sequences -/
 
 /-- what the optimisation loop can do to one residue between construction and `complete`:
